@@ -12,7 +12,7 @@ import vlib
 WRAP = ["gettimeofday", "timerfd_settime", "read", "pthread_mutex_lock"]
 CLK0 = 1700000000000000
 FLOOR = 100
-C06_CLAUSES = ("early", "once", "spacing", "order", "lost", "armed", "sets", "id", "crash", "format")
+C06_CLAUSES = ("early", "once", "spacing", "order", "lost", "armed", "sets", "id", "crash", "format", "thread")   # thread: free-running part only (B-10)
 C07_CLAUSES = ("cancel", "cancel-queued-add", "lost", "once", "id", "crash", "sets", "format")   # lost/once: a cancel must not kill or duplicate ANOTHER timer
 
 RUN = re.compile(r"^run\((-?\d+),(-?\d+),(-?\d+),(-?\d+)\)$")
@@ -768,6 +768,9 @@ def free_oracle(case, lines):
             adds[int(w[1])] = dict(seq=int(w[2]), tb=int(w[3]), ta=int(w[4]), lo=int(w[5]), hi=int(w[6]), iv=int(w[7]), who=w[8])
         elif w[0] == "run":
             runs.setdefault(int(w[1]), []).append((int(w[3]), int(w[4]), pos))
+            # REVIEW_B B-10: "runs ... on the loop thread" - the driver records EventLoop::isInLoopThread() inside the callback
+            if len(w) < 6 or w[5] != "L":
+                bad.append(("thread", "callback of tag %s ran on a thread that is not the loop's (%s)" % (w[1], w[5] if len(w) > 5 else "no thread record")))
         elif w[0] == "cancel":
             called.add(int(w[1]))
             if w[3] == "L":
@@ -858,7 +861,7 @@ def free_part(chk, nprog, variants=("plain",)):
                 bad_all.append((c, v, clause, msg))
     chk.cov["free_running"] = agg
     chk.add_obligation("free-running comparison against the wall clock (real loop(), timerfd, poller; %d programs x %s): never early, one-shots "
-                       "once, repeater spacing and count, deadline order, processed cancels stop the timer, none lost"
+                       "once, every callback on the loop thread (isInLoopThread() inside the callback), repeater spacing and count, deadline order, processed cancels stop the timer, none lost"
                        % (nprog, "+".join(variants)), not bad_all)
     seen = set()
     for (c, v, clause, msg) in bad_all:
